@@ -209,7 +209,9 @@ impl Display for Attr {
     fn fmt(&self, f: &mut Formatter<'_>) -> Result<(), std::fmt::Error> {
         match &self.value {
             Value::Record(attrs, body) if attrs.is_empty() && body.len() > 1 => {
-                write!(f, "@{}(", self.name)?;
+                f.write_str("@")?;
+                write_string_literal(self.name.as_str(), f)?;
+                f.write_str("(")?;
                 let mut first = true;
                 for elem in body.iter() {
                     if !first {
